@@ -479,11 +479,18 @@ impl From<PartialResponse> for Response {
         } else {
             Decision::Deny
         };
-        Response::new(
-            decision,
-            p.must_be_determining().map(|p| p.id().clone()).collect(),
-            p.errors().collect(),
-        )
+        // Residual policies are reported as errors below, i.e., they count as
+        // not satisfied, so the reasons are exactly the satisfied forbids when
+        // there are any and exactly the satisfied permits otherwise.
+        // (`must_be_determining` is an under-approximation in the presence of
+        // residuals and would give no reasons for an `Allow` decision when
+        // there is a residual forbid.)
+        let reason = if p.satisfied_forbids.is_empty() {
+            p.satisfied_permits.keys().cloned().collect()
+        } else {
+            p.satisfied_forbids.keys().cloned().collect()
+        };
+        Response::new(decision, reason, p.errors().collect())
     }
 }
 
